@@ -423,6 +423,24 @@ func (r *Runner) havocTarget(st *State, t ModTarget) {
 	switch {
 	case t.Ghost != "":
 		st.ghost["spec:"+t.Ghost] = Fresh("ghost_"+t.Ghost, SInt)
+	case t.File != nil:
+		ref := fileRef(*t.File)
+		comps := []string{"pos"}
+		if !t.FilePosOnly {
+			comps = []string{"content", "len", "pos", "synced"}
+		}
+		for _, c := range comps {
+			h := fileHeap(st, c)
+			var nv Term
+			if c == "content" {
+				nv = Fresh("fcontent", SArr)
+			} else {
+				nv = Fresh("f"+c, SInt)
+				st.assume(Le(Zero, nv))
+			}
+			st.rawHeapSet("F|"+c, "File_"+c, h.Sort, Store(h, ref, nv))
+			st.logWrite("F|"+c, ref)
+		}
 	case t.Chans:
 		r.closedHeap(st)
 		st.heap["CH|closed"] = Fresh("ChanClosed", SArrB)
@@ -549,6 +567,14 @@ func (r *Runner) frameCheck(st *State, f *Frame, env *SEnv, pos token.Pos) {
 	for _, m := range sp.Modifies {
 		t := penv.evalModSafe(m)
 		switch {
+		case t.File != nil:
+			comps := []string{"pos"}
+			if !t.FilePosOnly {
+				comps = []string{"content", "len", "pos", "synced"}
+			}
+			for _, c := range comps {
+				exc["F|"+c] = append(exc["F|"+c], frameExc{base: fileRef(*t.File)})
+			}
 		case t.Chans:
 			exc["CH|closed"] = append(exc["CH|closed"], frameExc{all: true})
 		case t.Arrays != nil:
